@@ -123,7 +123,8 @@ def run(ctx):
         if b.path == fin.path:
             continue
         for bb, i, s_ in b.stmts():
-            if s_["k"] != "assign" or not s_["lhs"]["p"] or s_["lhs"]["l"] != 1:
+            # on `self`, or on the result writer under another name (`let mut next = self.next_response()?; next.last_end = ..`)
+            if s_["k"] != "assign" or not s_["lhs"]["p"] or not (s_["lhs"]["l"] == 1 or "resultset::QueryResultWriter<" in b.local_ty(s_["lhs"]["l"]).split("(")[0]):
                 continue
             fl = place_fields(s_["lhs"])
             if fl != ["last_end"]:
